@@ -470,6 +470,7 @@ func (h *hand) exec(op opSpec) (err error) {
 		var terr error
 		_, tpan := safely(func() error { ns, terr = h.twinOp(op); return nil })
 		h.o.Count("engine.twin_ops")
+		h.o.Mark("C07", fmt.Sprintf("%s/%s/%s/%s/%d/%d", gs.Status.CurrentEvent, gs.Status.Round, op.kind, op.act, len(gs.Players), len(gs.Status.Pots)))
 		if tpan {
 			h.o.Violate("C07", "backend_panic", "backend panicked on "+op.line())
 			h.twin = nil
